@@ -80,6 +80,8 @@ ULP = 64 * 2.3e-16              # resolution of a sum of doubles (cancellation a
 USER_DB = """SURFACE_MASTER_SPECIES
  Oxi_a Oxi_aOH
  Cdm_u Cdm_uOH-0.5
+ Goe_uni Goe_uniOH-0.5
+ Goe_tri Goe_triO-0.5
 SURFACE_SPECIES
  Oxi_aOH = Oxi_aOH
   log_k 0
@@ -128,6 +130,50 @@ SURFACE_SPECIES
  Cdm_uOH-0.5 + 2H+ + PO4-3 = Cdm_uOPO2OH-1.5 + H2O
   -cd_music 0.3 -1.3 0 0 0
   log_k 27.6
+ Goe_uniOH-0.5 = Goe_uniOH-0.5
+  -cd_music 0 0 0 0 0
+  log_k 0
+ Goe_uniOH-0.5 + H+ = Goe_uniOH2+0.5
+  -cd_music 1 0 0 0 0
+  log_k 9.2
+  delta_h -30 kJ
+ Goe_uniOH-0.5 + Na+ = Goe_uniOHNa+0.5
+  -cd_music 0 1 0 0 0
+  log_k -1.0
+ Goe_uniOH-0.5 + H+ + Cl- = Goe_uniOH2Cl-0.5
+  -cd_music 1 -1 0 0 0
+  log_k 8.75
+ Goe_uniOH-0.5 + Zn+2 = Goe_uniOHZn+1.5
+  -cd_music 0.6 1.4 0 0 0
+  log_k 4.4
+ Goe_uniOH-0.5 + Ca+2 = Goe_uniOHCa+1.5
+  -cd_music 0 0 0 0.2 2
+  log_k 2.9
+ Goe_uniOH-0.5 + H+ + SO4-2 = Goe_uniOSO3-1.5 + H2O
+  -cd_music 0.5 -1.5 0 0 0
+  log_k 9.6
+ Goe_uniOH-0.5 + 2H+ + PO4-3 = Goe_uniOPO2OH-1.5 + H2O
+  -cd_music 0.25 -1.25 0 0 0
+  log_k 27.65
+ Goe_triO-0.5 = Goe_triO-0.5
+  -cd_music 0 0 0 0 0
+  log_k 0
+ Goe_triO-0.5 + H+ = Goe_triOH+0.5
+  -cd_music 1 0 0 0 0
+  log_k 9.2
+  delta_h -30 kJ
+ Goe_triO-0.5 + Na+ = Goe_triONa+0.5
+  -cd_music 0 1 0 0 0
+  log_k -1.0
+ Goe_triO-0.5 + H+ + Cl- = Goe_triOHCl-0.5
+  -cd_music 1 -1 0 0 0
+  log_k 8.75
+ Goe_triO-0.5 + Ca+2 = Goe_triOCa+1.5
+  -cd_music 0 0 2 0 0
+  log_k 1.8
+ Goe_triO-0.5 + H+ + SO4-2 = Goe_triOHSO4-1.5
+  -cd_music 1 0 -2 0 0
+  log_k 9.9
 """
 
 # surface definitions: list of (site type, fraction of the base site count)
@@ -136,7 +182,11 @@ SURFS = {
     "sw": [("Hfo_w", 1.0), ("Hfo_s", 0.025)],
     "u": [("Oxi_a", 1.0)],
     "c": [("Cdm_u", 1.0)],
+    # goethite: two site types with CHARGED master species on ONE surface name (one set of plane potentials): the plane-0
+    # charge balance has to sum the reference charges of both
+    "g": [("Goe_uni", 1.0), ("Goe_tri", 0.78)],
 }
+CDM_SURFS = ("c", "g")
 # (sites mol, specific area m2/g, mass g)
 GEOMS = [(2e-4, 600.0, 0.09), (1e-3, 100.0, 1.0), (5e-4, 40.0, 5.0)]
 PHS = [7.0, 5.0, 9.0, 3.0, 11.0]
@@ -492,6 +542,14 @@ def judge(case, lay, o, tag, problems, diags, stats):
         slack = ULP * chabs * f
         aqz = [(R.charge(n), m) for n, m in o["aq"].items()]
 
+        # CD-MUSIC surface with several site types: the fingerprint names them (the plane charges sum the reference
+        # charge of every site type - a different mechanism than a one-site-type surface)
+        multi = " site-types=%s" % "+".join(sts) if (kind in ("cdm", "cdmdl") and len(sts) > 1) else ""
+        if multi:
+            if len({R.charge(db.masters[st]) != 0.0 for st in sts}) != 1 or R.charge(db.masters[sts[-1]]) == 0.0:
+                raise RuntimeError("multi-site CD-MUSIC surface %s without charged master species" % s)
+            stats["cdmusic-multisite_n"] = stats.get("cdmusic-multisite_n", 0) + 1
+
         def cmp(name, got, want):
             e = abs(got - want)
             r = R.rel(got, want)
@@ -500,7 +558,7 @@ def judge(case, lay, o, tag, problems, diags, stats):
             if TOL * max(abs(got), abs(want)) < floor:
                 stats["undecidable_n"] = stats.get("undecidable_n", 0) + 1
             if not (e <= max(TOL * max(abs(got), abs(want)), floor) + slack):
-                problems.append(("charge-law %s model=%s" % (name, case["model"] if kind == "dl" else kind),
+                problems.append(("charge-law %s model=%s%s" % (name, case["model"] if kind == "dl" else kind, multi),
                                  "%s: surface %s: charge density from species %.17g C/m2, from the charge-potential relation %.17g C/m2 (rel %.3g; psi=%.17g V, mu=%.17g, eps_r=%.17g, T=%.17g K)" % (
                                      tag, s, got, want, r, edl["psi"], o["mu"], o["eps"], tk)))
         if kind == "ddl":
@@ -622,7 +680,7 @@ def valid(c):
     kind = MODELS[c["model"]][1]
     if "db" in c and (c["sorb"] not in DBS[c["db"]][0] or c["surf"] not in ("w", "sw")):
         raise RuntimeError("lattice point outside the alphabet of %s: %r" % (c["db"], c))
-    return (c["surf"] == "c") == (kind in ("cdm", "cdmdl"))
+    return (c["surf"] in CDM_SURFS) == (kind in ("cdm", "cdmdl"))
 
 
 def lattice(**dims):
@@ -776,7 +834,7 @@ def run(tier):
         for k, (a, b) in ev.by_model.items():
             if a == 0:
                 raise SystemExit("HARNESS ERROR: no completed run for %s" % k)
-        for rel_n in ("ma_n", "gouy-chapman_n", "ccm_n", "cdmusic-plane0_n", "cdmusic-plane2-diffuse_n", "dl-balance_n"):
+        for rel_n in ("ma_n", "gouy-chapman_n", "ccm_n", "cdmusic-plane0_n", "cdmusic-plane2-diffuse_n", "dl-balance_n", "cdmusic-multisite_n"):
             if ev.counts.get(rel_n, 0) < 100:
                 raise SystemExit("HARNESS ERROR: relation %s evaluated %d times" % (rel_n, ev.counts.get(rel_n, 0)))
         # database dimension: every surface species of the bound's database whose database reaction contains a secondary
